@@ -311,6 +311,7 @@ func init() {
 		Rule: "random digraphs through the VerifGraph alias: 1-10 vertices, densities 0-1, weights 0-9 incl. zero-weight cycles, self-loops, edges re-added with a changed weight, int/string/struct/hashable-pointer vertices; every graph searched from every source, R times (map order); " +
 			"oracle: Floyd-Warshall on the harness's adjacency matrix — every reachable vertex has the exact distance and a predecessor path made of existing edges from the source whose weights sum to it; an unreachable vertex's predecessor chain never meets the source. " +
 			"One case in six is a HISTORY on one graph object and its reversed views: searches from random sources interleaved with edge (re-)weighting, removal and vertex detachment through either handle, each search compared with the reference of that moment. One case in 10 instead checks the non-negative graphs the resolver really searches (reach.path hook: the chosen path is a real path of minimum weight per Bellman-Ford). The thorough tier additionally enumerates ALL digraphs on <= 3 vertices with weights {absent,0,1,2} (262 404 graphs, every source). " +
+			"One case in 32 is a long-chain graph (257-420 vertices, shortest paths of several hundred edges, shortcuts costing about as much as the stretch of chain they bypass) checked against the harness's own O(n^2) search. " +
 			"non-trivial = >= 3 vertices and >= 2 edges",
 		Assumptions: []string{"non-negative weights only (the property's precondition); the resolver's re-weighted copies with a negative weight are skipped by the live-graph monitor"},
 		Run:         runC18,
@@ -353,6 +354,9 @@ func runC18(c *CaseCtx) (res CaseResult) {
 	}
 	if c.Idx%6 == 1 {
 		return runC18History(c, r)
+	}
+	if c.Idx%32 == 5 {
+		return runC18Long(c, r)
 	}
 	ref := randomRef(r, 10)
 	if c.Idx%8 == 3 {
@@ -726,7 +730,7 @@ func init() {
 		Rule: "random sequences of 1-60 operations over <= 6 vertex ids (so operations collide), starting from the zero-value Graph: Add, AddOverwrite (new object, same hash code), AddEdge, AddEdgeWeighted, RemoveEdge (present or absent edge), Remove, Copy (both sides keep mutating, each with its own model), " +
 			"Reverse (view sharing the model; Reverse().Reverse() is compared with the original); int/string/struct/hashable-pointer vertices. After EVERY operation and for every live handle: Vertices() = model set; OutEdges/InEdges = model successors/predecessors; " +
 			"VerifSnapshot: in-adjacency is exactly the transpose of out-adjacency with equal weights and the vertex table has exactly their keys; Vertex(id) non-nil iff present; at the end Dijkstra distances equal Floyd-Warshall on the model (last weight wins). " +
-			"One case in 10 checks mirror consistency and copy independence on the resolver's live graphs. non-trivial = sequence with >= 10 operations including a Remove/RemoveEdge and a Copy or Reverse",
+			"One case in 24 is a churn history: 36-65 vertices are added with edges, views (Reverse, Copy) are taken, then all but three vertices are removed through ONE of the handles while the others are held, then mixed operations through all handles. One case in 10 checks mirror consistency and copy independence on the resolver's live graphs. non-trivial = sequence with >= 10 operations including a Remove/RemoveEdge and a Copy or Reverse",
 		Assumptions: []string{"an edge operation that names an absent vertex, and removing an absent vertex, are expected to do nothing (as the package documents)", "which Go object represents a re-added vertex is not checked (documented one way, implemented another, property silent)"},
 		Run:         runC19,
 	})
@@ -740,6 +744,18 @@ func runC19(c *CaseCtx) (res CaseResult) {
 	vm := &vertexMaker{kind: r.Intn(4)}
 	nv := 2 + r.Intn(5)
 	nops := 1 + r.Intn(60)
+	// churn (1 case in 24): a large graph is built, views are taken, and
+	// then most of it is removed again through ONE handle (dozens of
+	// removals while the views are held), followed by mixed operations
+	churn := c.Idx%24 == 5
+	buildEnd, removeEnd, remH := 0, 0, 0
+	if churn {
+		nv = 36 + r.Intn(30)
+		buildEnd = nv + nv/2
+		removeEnd = buildEnd + 3 + nv - 3
+		nops = removeEnd + 20 + r.Intn(40)
+		res.obs("churn_cases", 1)
+	}
 	var g0 am.VerifGraph
 	handles := []*handle{{g: &g0, m: newModel(), name: "g"}}
 	var trace []string
@@ -840,8 +856,20 @@ func runC19(c *CaseCtx) (res CaseResult) {
 		}
 		return ok
 	}
+	removals := map[string]int{}
 	for k := 0; k < nops; k++ {
 		h := pick(r, handles)
+		if churn {
+			switch {
+			case k < buildEnd:
+				h = handles[0]
+			case k == buildEnd+2:
+				remH = r.Intn(len(handles))
+				h = handles[remH]
+			case k > buildEnd+2 && k < removeEnd:
+				h = handles[remH]
+			}
+		}
 		present := func() []int {
 			var p []int
 			for v := range h.m.verts {
@@ -851,7 +879,19 @@ func runC19(c *CaseCtx) (res CaseResult) {
 			return p
 		}()
 		op := r.Intn(12)
-		if r.Intn(12) == 0 {
+		if churn {
+			switch {
+			case k < buildEnd:
+				op = []int{0, 0, 0, 1, 3, 4, 5, 6, 6, 2}[r.Intn(10)]
+			case k == buildEnd:
+				op = 10
+			case k == buildEnd+1:
+				op = 9 + r.Intn(3)
+			case k < removeEnd && len(present) > 3 && r.Intn(8) != 0:
+				op = 8
+			}
+		}
+		if !(churn && k < removeEnd) && r.Intn(12) == 0 {
 			// an edge operation naming an absent vertex (or removing one)
 			// does nothing — and must not disturb anything
 			var absent []int
@@ -923,6 +963,8 @@ func runC19(c *CaseCtx) (res CaseResult) {
 			h.g.Remove(vm.make(v))
 			h.m.remove(v)
 			hadRemove = true
+			removals[h.name]++
+			res.max("max_removals_through_one_handle", int64(removals[h.name]))
 			trace = append(trace, fmt.Sprintf("%s.Remove(%d)", h.name, v))
 		case op == 9 && len(handles) < 6:
 			cp := h.g.Copy()
@@ -998,7 +1040,7 @@ func init() {
 			return 20000
 		},
 		Rule: "same graph generator as C18 (1-10 vertices, all densities, self-loops, acyclic and cyclic, four vertex kinds), R repetitions for map order; oracle = transitive closure of the harness's adjacency matrix. " +
-			"DFS with a fixed per-vertex descend/decline decision: the SET of reported vertices equals the vertices != start reachable by a path whose interior vertices all descend, each descending vertex is reported exactly once, the start never; " +
+			"DFS with a fixed per-vertex descend/decline decision: the SET of reported vertices equals the vertices != start reachable by a path whose interior vertices all descend, each descending vertex is reported exactly once, the start never; in half of the cases every checked traversal is preceded by one that its callback aborts (error or recovered panic) after descending into 1-3 vertices; " +
 			"KahnSort: acyclic => every vertex exactly once and every edge forward, any cycle or self-loop => panic; StronglyConnected: the lists partition the vertices and two vertices share a list iff mutually reachable; " +
 			"TopoShortestPath on acyclic graphs with exactly one in-degree-0 vertex agrees with Dijkstra from it for every vertex. One case in 10 checks the resolver's pruning DFS on live graphs. " +
 			"Thorough additionally enumerates ALL digraphs on <= 3 vertices (262 404 graphs). non-trivial = >= 3 vertices and >= 2 edges",
@@ -1025,7 +1067,29 @@ func checkTraversals(ref *refGraph, vm *vertexMaker, r *rand.Rand, res *CaseResu
 	for i := range descend {
 		descend[i] = r.Intn(4) > 0
 	}
+	abortFirst := r.Intn(2) == 0
 	for start := 0; start < n; start++ {
+		if abortFirst {
+			// a traversal that its callback aborts (error, or a panic the
+			// caller recovers) after descending into a few vertices must
+			// leave nothing behind for the next traversal
+			stopAt, seenCb := 1+r.Intn(3), 0
+			usePanic := r.Intn(4) == 0
+			func() {
+				defer func() { recover() }()
+				g.DFS(vs[r.Intn(n)], func(v am.VerifVertex, next func() error) error {
+					seenCb++
+					if seenCb > stopAt {
+						if usePanic {
+							panic("callback panic")
+						}
+						return fmt.Errorf("callback gives up")
+					}
+					return next()
+				})
+			}()
+			res.obs("aborted_traversals_before_a_checked_one", 1)
+		}
 		reported := map[int]int{}
 		err := g.DFS(vs[start], func(v am.VerifVertex, next func() error) error {
 			i, ok := idx[am.VerifVertexID(v)]
@@ -1345,5 +1409,95 @@ func runC18History(c *CaseCtx, r *rand.Rand) (res CaseResult) {
 		tr = tr[:12]
 	}
 	res.Sample = map[string]interface{}{"history": strings.Join(tr, " ; "), "vertex_kind": vm.kind}
+	return res
+}
+
+// runC18Long: graphs whose shortest paths have hundreds of edges: a chain of
+// 257-420 vertices with small weights, forward shortcuts that cost about as
+// much as the stretch of chain they bypass (a little less, the same, a little
+// more), and a few backward edges. The reference is the harness's own
+// array-based O(n^2) search from each checked source.
+func runC18Long(c *CaseCtx, r *rand.Rand) (res CaseResult) {
+	n := 257 + r.Intn(164)
+	ref := newRef(n)
+	prefix := make([]int, n)
+	for i := 0; i+1 < n; i++ {
+		w := 1
+		switch r.Intn(6) {
+		case 0:
+			w = 0
+		case 1:
+			w = 2
+		}
+		ref.w[i][i+1] = w
+		prefix[i+1] = prefix[i] + w
+	}
+	for k := 0; k < n/24; k++ {
+		i := r.Intn(n - 2)
+		j := i + 2 + r.Intn(minInt(n-i-2, 12))
+		w := prefix[j] - prefix[i] + r.Intn(4) - 1
+		if w < 0 {
+			w = 0
+		}
+		ref.w[i][j] = w
+	}
+	// the shape of the classic counter-example: one direct edge over (almost)
+	// the whole chain that costs one more than the chain
+	ref.w[0][n-1] = prefix[n-1] + 1
+	for k := 0; k < 4; k++ {
+		i := 1 + r.Intn(n-1)
+		ref.w[i][r.Intn(i)] = r.Intn(3)
+	}
+	res.Key = fmt.Sprintf("long-chain n=%d total=%d case=%d", n, prefix[n-1], c.Idx)
+	res.NonTrivial = true
+	res.obs("long_chain_graphs", 1)
+	single := func(src int) []int {
+		dist := make([]int, n)
+		done := make([]bool, n)
+		for i := range dist {
+			dist[i] = inf
+		}
+		dist[src] = 0
+		for {
+			u := -1
+			for i := 0; i < n; i++ {
+				if !done[i] && dist[i] < inf && (u < 0 || dist[i] < dist[u]) {
+					u = i
+				}
+			}
+			if u < 0 {
+				break
+			}
+			done[u] = true
+			for v := 0; v < n; v++ {
+				if w := ref.w[u][v]; w >= 0 && dist[u]+w < dist[v] {
+					dist[v] = dist[u] + w
+				}
+			}
+		}
+		return dist
+	}
+	vm := &vertexMaker{kind: r.Intn(4)}
+	g, vs := buildGraph(ref, vm, r)
+	d := make([][]int, n)
+	maxEdges := 0
+	for _, src := range []int{0, r.Intn(n / 4)} {
+		d[src] = single(src)
+		checkDijkstra(g, ref, vs, vm, src, d, &res, "C18", func() interface{} {
+			return map[string]interface{}{"graph": res.Key, "family": "long-chain", "vertex_kind": vm.kind}
+		})
+		res.Evals++
+		// how long are the paths really? (edges on the library's path to the last vertex)
+		_, edgeTo := g.Dijkstra(vs[src])
+		if p := g.EdgeToPath(vs[n-1], edgeTo); len(p)-1 > maxEdges {
+			maxEdges = len(p) - 1
+		}
+		if maxEdges >= 256 {
+			res.obs("searches_with_a_shortest_path_of_256_or_more_edges", 1)
+		}
+	}
+	res.max("max_vertices", int64(n))
+	res.max("max_edges_on_a_shortest_path", int64(maxEdges))
+	res.Sample = map[string]interface{}{"graph": res.Key}
 	return res
 }
